@@ -139,6 +139,15 @@ class ScrapesIO(HasIOPreview, ABC):
                     f"argument name that conflicts with __init__: {label}. Please "
                     f"choose a name _not_ among {cls._get_init_keywords()}"
                 )
+            elif value.kind in (
+                inspect.Parameter.VAR_POSITIONAL,
+                inspect.Parameter.VAR_KEYWORD,
+            ):
+                raise ValueError(
+                    f"Trying to build input preview for {cls.__name__}, encountered the "
+                    f"variadic argument {label}. A variadic cannot be represented by "
+                    f"an input channel; please spell the arguments out."
+                )
 
             if value.annotation is inspect.Parameter.empty:
                 type_hint = None
